@@ -626,7 +626,11 @@ class ModelMixin:
                 return KSetV([("term", T.topkeys(recv.term))])
             if meth == "get":
                 return Sym("val", T.dget(recv.term, self.as_key(args[0])))
-        if isinstance(recv, Sym) and recv.kind == "val" and meth in ("items", "keys", "values"):
+        if isinstance(recv, Sym) and recv.kind == "val" and meth == "values":
+            # the elements of a JSON section (value known to be a Mapping on this path)
+            t = recv.term
+            return SeqV(T.vnchild(t), lambda i: Sym("val", T.vchild(t, i)))
+        if isinstance(recv, Sym) and recv.kind == "val" and meth in ("items", "keys"):
             raise Unsupported(f".{meth}() of opaque value")
         if isinstance(recv, (str,)) or (isinstance(recv, Sym) and recv.kind in ("key", "val")):
             if meth == "startswith" and isinstance(recv, str):
